@@ -51,6 +51,18 @@ class LineDriver:
     def cmd(self, cmd):
         """returns the event dict, or the string 'hang' / 'crash' (driver restarted, preamble replayed)"""
         r = self._send(cmd)
+        if r == "hang":
+            # a loaded machine can make one answer slow: a hang is reported only if the same command, on a restarted driver and with
+            # twenty times the patience, does not answer either
+            self.kill()
+            self.start()
+            saved, self.timeout = self.timeout, max(20.0, self.timeout * 20)
+            r2 = self._send(cmd)
+            self.timeout = saved
+            if r2 not in ("hang", "crash"):
+                self.slow = getattr(self, "slow", 0) + 1
+                return r2
+            r = r2
         if r in ("hang", "crash"):
             if r == "hang":
                 self.hangs += 1
